@@ -128,6 +128,16 @@ CHECKS["C02"] = dict(
     design_ref="DESIGN.md section 6, C02",
 )
 
+CHECKS["C03"] = dict(
+    category="other",
+    technique="memo-key completeness by intra-procedural provenance with closure-capture resolution (parameters used under the miss branch vs parameters in the key), narrowing-cast rule on keys, receiver-shape rule for the base-keyed ReadCache, must-dominate rule on LazyLoad slot stores, field-write audit of loader dependencies, forbidden-callee and RandomState-iteration audit over all call sites, statics table",
+    text=("Static decision of history-independence as memo-key completeness for every cache of the crate (entry memos, the base-keyed ReadCache, the "
+          "lookup caches, the dotted-circle GlyphCache, the LazyLoad slots of Font) and of run-to-run determinism as the absence of clock/env/"
+          "thread/random callees, of unaudited iteration over RandomState-hashed containers and of mutable statics. Equality of values across "
+          "histories as such, and determinism of third-party decompressors, are not decided."),
+    design_ref="DESIGN.md section 6, C03",
+)
+
 NOT_APPLICABLE = {
     "C05": "every clause is a numeric relation between table contents and output values; the structural parts (termination, borrow and panic discipline, attachment index validation) are decided under C02; no GPOS-specific clause is visible in the shape of the code",
 }
